@@ -48,6 +48,10 @@ class ChannelList(gpp.UGenSequence, aob.AbstractSequence, list):
         super(gpp.UGenSequence, self).__init__(self)
 
 
+    def __iadd__(self, other):  # list.__iadd__ extends the list.
+        return self + other
+
+
     ### UGen convenience methods (keep in sync with UGen) ###
 
     def _multichannel_perform(self, selector, *args):
